@@ -242,8 +242,9 @@ Print Assumptions C15_coordinates_positions.
 (* every area find_all_orfs scans - whole record, one-part area, origin-spanning area incl. the window joined over
    the origin - is a window of the record not longer than it, shares at most max_overlap positions with EVERY gene
    of the record and lies inside the searched part; under the decidable guard Model.gaps_guard (well-formed
-   input, the look-up helper misses no gene overlapping an area part [else class FC15a], no gene reaches into
-   both parts of an origin-spanning area [else class FC15b]) *)
+   input, no gene reaches into both parts of an origin-spanning area [else class FC15b]).  The former conjunct
+   "the look-up helper misses no gene overlapping an area part" [class FC15a] is gone: since the repair
+   _overlapping_cds_features tests every gene (Proofs.cds_within_complete) *)
 Theorem C15_gaps_areas : forall N cds area ml ov areas,
   gaps_guard N cds area ml ov = true -> intergenic_for N cds area ml ov = Ok areas ->
   Forall (area_ok N cds area ov) areas.
@@ -280,13 +281,26 @@ Theorem C15_gaps_spec_ok : forall g cds area ml ov feats,
 Proof. exact find_all_orfs_spec_ok. Qed.
 Print Assumptions C15_gaps_spec_ok.
 
-(* the guard cannot be dropped: the two recorded findings as statements about the (faithful) model *)
-Theorem C15_gaps_refuted_FC15a : exists g cds area ml ov feats f c,
-  gaps_wf (zlen g) cds (Some area) ml ov = true /\ forallb acgtb g = true /\ gaps_class cds (Some area) = 1 /\
-  find_all_orfs g cds (Some area) ml ov = Ok feats /\ In f feats /\ In c cds /\ ov < shared (floc f) c.
-Proof. exact gaps_refuted_helper. Qed.
-Print Assumptions C15_gaps_refuted_FC15a.
+(* FC15a area_misses_enclosing_gene, repaired: the genes handed to the gap search for an area part are EXACTLY the
+   genes of the record that overlap the part, in the record's order (positive statement replacing
+   C15_gaps_refuted_FC15a) ... *)
+Theorem C15_gaps_helper_complete : forall cds p c,
+  In c (cds_within cds p) <-> In c cds /\ overlap c [p] = true.
+Proof. intros cds p c. unfold cds_within. exact (filter_In (fun d => overlap d [p]) c cds). Qed.
+Print Assumptions C15_gaps_helper_complete.
 
+(* ... and the recorded witness (nested gene hiding the enclosing gene from the old look-up) is inside the guard: the
+   enclosing gene is found, no ORF inside it is returned *)
+Theorem C15_gaps_FC15a_witness_repaired :
+  let g := [67; 67; 67; 67; 67; 67; 67; 67; 67; 67; 67; 67; 67; 67; 67; 67; 67; 67; 67; 67; 67; 67; 67; 67; 67; 67; 67; 67; 67; 67; 67; 67; 67; 65; 84; 71; 65; 65; 65; 84; 65; 65; 67; 67; 67; 67; 67; 67; 67; 67; 67; 67; 67; 67; 67; 67; 67; 67; 67; 67] in
+  let cds := [[mkPart 5 40 1]; [mkPart 10 20 1]] in
+  gaps_guard (zlen g) cds (Some [mkPart 30 60 1]) 5 0 = true /\
+  cds_within cds (mkPart 30 60 1) = [[mkPart 5 40 1]] /\
+  find_all_orfs g cds (Some [mkPart 30 60 1]) 5 0 = Ok [].
+Proof. exact gaps_witness_FC15a_repaired. Qed.
+Print Assumptions C15_gaps_FC15a_witness_repaired.
+
+(* the remaining guard cannot be dropped: the recorded finding FC15b as a statement about the (faithful) model *)
 Theorem C15_gaps_refuted_FC15b : exists g cds area ml ov feats f c,
   gaps_wf (zlen g) cds (Some area) ml ov = true /\ forallb acgtb g = true /\ gaps_class cds (Some area) = 2 /\
   find_all_orfs g cds (Some area) ml ov = Ok feats /\ In f feats /\ In c cds /\ ov < shared (floc f) c.
